@@ -31,8 +31,12 @@ def run(ctx):
         ops.append(X.send_template(rng, 256, ies))
         ndata = 0
         for _ in range(rng.randint(1, 30)):
-            if rng.random() < 0.15:
+            r = rng.random()
+            if r < 0.12:
                 ops.append(X.send_template(rng, 256, ies))
+            elif r < 0.2:
+                # a pass of the UDP template refresher: its messages carry the CURRENT counter and wall-clock second too
+                ops.append("exp refresh")
             else:
                 ops.append(X.send_data(rng, 256, ies, rng.choice([1, 2, 5, 50, 200, rng.randint(1, 200)])))
                 ndata += 1
